@@ -24,6 +24,7 @@ type Program struct {
 	Funcs   map[string]*ssa.Function // by key (RelString(nil))
 	Specs   *Specs
 	mutGlob map[*ssa.Global]bool
+	plainErr map[string]bool // package-level errors initialised by errors.New (match only themselves)
 }
 
 func LoadProgram(repo, specDir string) (*Program, error) {
@@ -47,7 +48,7 @@ func LoadProgram(repo, specDir string) (*Program, error) {
 	}
 	prog, _ := ssautil.AllPackages(pkgs, ssa.InstantiateGenerics|ssa.GlobalDebug)
 	prog.Build()
-	p := &Program{Repo: repo, SSA: prog, Pkgs: map[string]*packages.Package{}, Funcs: map[string]*ssa.Function{}, mutGlob: map[*ssa.Global]bool{}}
+	p := &Program{Repo: repo, SSA: prog, Pkgs: map[string]*packages.Package{}, Funcs: map[string]*ssa.Function{}, mutGlob: map[*ssa.Global]bool{}, plainErr: map[string]bool{}}
 	dirToPkg := map[string]string{}
 	packages.Visit(pkgs, nil, func(pk *packages.Package) {
 		p.Pkgs[pk.PkgPath] = pk
@@ -68,6 +69,19 @@ func LoadProgram(repo, specDir string) (*Program, error) {
 		p.Funcs[funcKey(fn)] = fn
 		// mutable globals: stored to outside package initialisers
 		if fn.Name() == "init" || strings.HasPrefix(fn.Name(), "init#") {
+			for _, b := range fn.Blocks {
+				for _, in := range b.Instrs {
+					if st, ok := in.(*ssa.Store); ok {
+						if g, ok := st.Addr.(*ssa.Global); ok {
+							if call, ok := st.Val.(*ssa.Call); ok {
+								if cf := call.Call.StaticCallee(); cf != nil && cf.RelString(nil) == "errors.New" {
+									p.plainErr[g.Pkg.Pkg.Path()+"."+g.Name()] = true
+								}
+							}
+						}
+					}
+				}
+			}
 			continue
 		}
 		for _, b := range fn.Blocks {
